@@ -19,6 +19,13 @@ import RotoV.Lemmas.TcRules
 import RotoV.Lemmas.UnifyTc
 import RotoV.Lemmas.TypingMono
 import RotoV.Lemmas.TypingProg
+import RotoV.Model.TcInfer
+import RotoV.Model.TcInferPinned
+import RotoV.Generated.C07Arms
+import RotoV.Lemmas.TcInferUnify
+import RotoV.Lemmas.TcInferSoundMain
+import RotoV.Lemmas.TcInferObls
+import RotoV.Lemmas.TcInferProg
 
 namespace RotoV.C07
 open RotoV.Typing RotoV.TcRules
@@ -372,5 +379,196 @@ theorem scope_keys_unique (ds : List (Key × DKind)) (t : Table) (h : insertAll 
 
 example : insertAll [] [((1, 5), .valueLocal), ((1, 5), .valueLocal)] = none := by decide
 example : (insertAll [] [((1, 5), .function false), ((1, 5), .function true)]).isSome = true := by decide
+
+/-! ## T2, the other half — a successful unification equates the two types
+
+  For the types the core language can produce (`TcInfer.WT`: variables, literal
+  variables, `()`, type names applied to the right number of well-formed
+  arguments — no anonymous records, no function types, no `!` inside): a
+  successful `unify_inner` leaves a well-formed store, only ever STRENGTHENS it
+  (every solution of the new store solves the old one), and every solution of
+  the new store gives the two types the same meaning. "Solution" is semantic
+  (`TcInfer.Sat`: a valuation of all variables under which every slot's content
+  denotes the slot's value and literal variables have values of their kind —
+  an integer type, a signed one once negated, a float type), so no pointer chain
+  has to be followed. For every store, every pair of types, every fuel. -/
+
+open RotoV.Unify RotoV.TcInfer in
+/-- **T2 `unify_equates`.** -/
+theorem unify_equates (env : Env) (fuel : Nat) (s s' : Store) (a b t : MTy)
+    (hW : WTs s) (ha : WT a = true) (hb : WT b = true)
+    (h : unify (mkDefs env) fuel s a b = .ok t s') :
+    WTs s' ∧ ∀ σ : Val, Sat σ s' → Sat σ s ∧ den σ a = den σ b :=
+  (unify_sound (mkDefs_std env) fuel).1 s a b t s' hW ha hb h
+
+open RotoV.Unify RotoV.TcInfer in
+/-- the same for `TypeChecker::unify(expected, found)` -/
+theorem unify_top_equates (env : Env) (fuel : Nat) (s s' : Store) (a b t : MTy)
+    (hW : WTs s) (ha : WT a = true) (hb : WT b = true)
+    (h : unifyTop (mkDefs env) fuel s a b = .ok t s') :
+    WTs s' ∧ ∀ σ : Val, Sat σ s' → Sat σ s ∧ den σ a = den σ b :=
+  unifyTop_sound (mkDefs_std env) fuel s a b t s' hW ha hb h
+
+open RotoV.Unify RotoV.TcInfer in
+/-- non-vacuity: `let y = 1;` then `y` against `Option[i8]`'s argument — the
+    store has a solution, and it sends the literal variable to `i8` -/
+example :
+    let s : Store := [.intVar 0 false, .var 1]
+    (match unify (mkDefs ⟨[], [], []⟩) 8 s (tOption (.intVar 0 false)) (tOption (.name 4 [])) with
+      | .ok _ s' => s' == [.name 4 [], .var 1]
+      | _ => false) = true := by decide +kernel
+
+/-! ## T3 — the inference pass is the code's -/
+
+/-- **The arms of `TypeChecker::expr` are the ones `Model/TcInfer.lean` was
+    written from**: which helper each arm calls, in which order, with which
+    expected type (`Generated/C07Arms.lean`, regenerated from
+    src/typechecker/expr.rs on every run, against the pinned copy). -/
+theorem expr_arms_as_modelled : C07Arms.exprArms = TcInferPinned.exprArms := rfl
+/-- … the arms of `TypeChecker::stmt` -/
+theorem stmt_arms_as_modelled : C07Arms.stmtArms = TcInferPinned.stmtArms := rfl
+/-- … the arms of `TypeChecker::literal` -/
+theorem literal_arms_as_modelled : C07Arms.literalArms = TcInferPinned.literalArms := rfl
+/-- … `block`, `match_expr`, `binop`, `check_arguments`, `record_fields`,
+    `path_function_call`, `method_call`, `access_field`, `function`, `constant`,
+    `filter_map`, `test`, `unify` -/
+theorem helper_skeletons_as_modelled : C07Arms.fnSkeletons = TcInferPinned.fnSkeletons := rfl
+
+example : C07Arms.exprArms.length = 20 := by decide
+
+/-! ## T3 `infer_sound` — what the inference pass accepts, the declarative rules accept
+
+  FULL STATEMENT (DESIGN §4 C07 T3): if the model of `TypeChecker::function`
+  (`TcInfer.inferFn`: parameters, body through `TypeChecker::{block, stmt, expr}`
+  with expected-type propagation and unification, then the deferred
+  obligations) accepts a function item, then the declarative checker accepts
+  it — so every script the declarative rules reject is rejected by the model.
+  NOT proved in this form. PROVED (`infer_sound_partial`, by mutual induction
+  over expressions / argument lists / statements / blocks, on top of
+  `unify_equates`): the statement for every function item whose body lies in the
+  fragment `TcInfer.coreB` —
+      literals of all kinds (with and without suffix: integer- and
+      float-literal variables), variables, constants, field access (a path
+      `v.a.b` or `Access` on any expression), unary `-` (signed integers,
+      floats, literal variables that thereby become must-be-signed) and `!`,
+      the binary operators `+` (numbers, String + String, List + List) `-` `*`
+      `%` `== != < <= > >= && ||`, `if` with and without `else`, `while`, `for`,
+      blocks, `let` with and without annotation, expression statements,
+      assignment to local variables and their fields, calls of functions
+      (argument count and types), constructors of user enums, `Option.Some(e)`,
+      `Option.None`, typed record literals (field names and types), list
+      literals (also `[]`), `?`, `match` over `Option` and user enums with
+      binders, guards and `_` (at least one arm; the count-based exhaustiveness
+      test of `match_expr` is shown to imply the declarative one by a pigeonhole
+      argument), `return` / `accept` / `reject` with and without value —
+  under the hypothesis that the store the body check leaves behind HAS A
+  SOLUTION in ground types (`∃ σ, GVal σ ∧ Sat σ st.store`; `TcInfer.satB`
+  decides a proposed solution).
+  MISSING, precisely:
+    (a) outside the fragment: method calls, compound assignment, arm-less `match`, `/`
+        (its `IpAddr / u8` case builds a `Prefix`, which the declarative rules do
+        not have), f-strings (and with them `resolve_obligations`: for a body of
+        the fragment the obligations stay empty — `inferFn_store`);
+    (b) that a solution of the final store always exists (it does whenever the
+        store is acyclic, which the occurs check maintains — not proved here);
+    (c) nothing else at the level of items: constant items and whole programs
+        are covered (`infer_program_sound_partial`).
+  The model itself is compared with the real checker on every run (all
+  constructs, accept / reject and class of the report). -/
+
+open RotoV.TcInfer in
+/-- **T3 `infer_sound_partial`** (function items, core fragment): if the model
+    of `TypeChecker::function` accepts the item and the store it ends with has a
+    solution in ground types, the declarative checker accepts the item. -/
+theorem infer_sound_partial (env : Env) (henv : EnvPlain env) (p : Prog) (n : Nat)
+    (params : List (Nat × Ty)) (rt : Ty) (body : Block)
+    (hpp : (params.all fun q => plain q.2) = true) (hpr : plain rt = true) (hcb : coreB body = true)
+    (u : Unit) (st' : St) (h : inferFn env params rt body ⟨[], []⟩ = .ok u st')
+    (hsol : ∃ σ : Val, GVal σ ∧ Sat σ st'.store) :
+    checkDecl env p (.fn n params rt body) = .ok () := by
+  obtain ⟨st1, h1, h2⟩ := inferFn_store hcb h
+  obtain ⟨σ, hσ, hs⟩ := hsol
+  rw [h2] at hs
+  exact inferFn_sound env henv p n params rt body hpp hpr hcb st1 h1 σ hσ hs
+
+open RotoV.TcInfer in
+/-- … hence a function item the declarative rules reject is not accepted by the
+    model with a solvable store -/
+theorem infer_rejects_what_rules_reject_partial (env : Env) (henv : EnvPlain env) (p : Prog) (n : Nat)
+    (params : List (Nat × Ty)) (rt : Ty) (body : Block)
+    (hpp : (params.all fun q => plain q.2) = true) (hpr : plain rt = true) (hcb : coreB body = true)
+    (hrej : checkDecl env p (.fn n params rt body) ≠ .ok ())
+    (u : Unit) (st' : St) (h : inferFn env params rt body ⟨[], []⟩ = .ok u st') :
+    ¬ ∃ σ : Val, GVal σ ∧ Sat σ st'.store :=
+  fun hsol => hrej (infer_sound_partial env henv p n params rt body hpp hpr hcb u st' h hsol)
+
+open RotoV.TcInfer in
+/-- **T3 for whole programs** (`TcInfer.checkProgM`: unique item names, type
+    declarations and type cycles, all signatures, then every function and
+    constant in source order through ONE union-find store, then the constant
+    cycles): if the model accepts a program whose items lie in the fragment
+    (`progPlain`: every declared type is a written type; `coreD`: written types
+    in signatures / annotations, bodies in `coreB`, initialisers in `coreE`) and the store it ends with has a solution in ground
+    types, then the declarative checker accepts the program. -/
+theorem infer_program_sound_partial (p : Prog) (hpl : progPlain p = true) (hc : p.decls.all coreD = true)
+    (u : Unit) (st : St) (h : checkProgM p = .ok u st) (hsol : ∃ σ : Val, GVal σ ∧ Sat σ st.store) :
+    checkProg p = .ok () :=
+  checkProgM_sound p (envPlain_of_progPlain p hpl) hc u st h hsol
+
+open RotoV.TcInfer in
+/-- **… hence every script of the fragment that the declarative rules reject is
+    rejected by the model** — or accepted only with a store that has no
+    solution (never observed: the driver checks `satB (solve s) s` for every
+    accepted program of every run). -/
+theorem rules_reject_model_rejects_partial (p : Prog) (hpl : progPlain p = true) (hc : p.decls.all coreD = true)
+    (hrej : accepts p = false) (u : Unit) (st : St) (h : checkProgM p = .ok u st) :
+    ¬ ∃ σ : Val, GVal σ ∧ Sat σ st.store := by
+  intro hsol
+  have := infer_program_sound_partial p hpl hc u st h hsol
+  unfold accepts at hrej
+  rw [this] at hrej
+  cases hrej
+
+open RotoV.TcInfer in
+/-- non-vacuity: the program `const C0: i64 = 5; fn f0(v0: i64) -> i64 { let v1 = 1; -(v0 + v1 + C0) }`
+    is in the fragment, the model accepts it and the proposed solution solves its store -/
+example :
+    let p : Prog := ⟨[.const 0 (.int .i64) (.intLit none),
+      .fn 0 [(0, .int .i64)] (.int .i64)
+        (.mk [.let_ 1 none (.intLit none)] (some (.neg (.bin .add (.bin .add (.var 0) (.var 1)) (.const 0)))))]⟩
+    progPlain p = true ∧ p.decls.all coreD = true ∧
+    (match checkProgM p with
+      | .ok _ st => satB (solve st.store) st.store && (solve st.store).all ground
+      | _ => false) = true ∧ accepts p = true := by decide +kernel
+
+open RotoV.TcInfer in
+/-- the same for ONE expression checked against an expected type, in any scope
+    and any store: every ground solution of the resulting store solves the
+    store before, and under it the declarative checker gives the expression a
+    type of which the expected type is an instance (and agrees that it diverges
+    whenever the model says so) -/
+theorem infer_expr_sound_partial (env : Env) (henv : EnvPlain env) (e : Expr) (hc : coreE e = true)
+    (cx : Cx) (g : MGamma) (st : St) (d : Bool) (st' : St)
+    (hW : WTs st.store) (hcx : WTcx cx) (hg : WTg g) (h : infer env cx g e st = .ok d st') :
+    WTs st'.store ∧ ∀ σ : Val, GVal σ → Sat σ st'.store → Sat σ st.store ∧
+      ∀ gd, gammaInst gd (denG σ g) = true →
+        ∃ t dd, synth env (denCx σ cx) gd e = .ok (t, dd) ∧ inst t (den σ cx.expected) = true ∧
+          (d = true → dd = true) :=
+  soundE env henv e hc cx g st d st' hW hcx hg h
+
+open RotoV.TcInfer in
+/-- non-vacuity: `fn f(v0: i8) -> i8 { let v1 = 1; -(v0 + v1) }` is accepted by
+    the model, the store it leaves has the solution found by hand (the literal
+    variable is `i8`), and `fn f(v0: u8) -> u8 { -v0 }` is rejected
+    ("cannot apply `-` to unsigned integer type") -/
+example :
+    let body : Block := .mk [.let_ 1 none (.intLit none)] (some (.neg (.bin .add (.var 0) (.var 1))))
+    coreB body = true ∧
+    (match inferFn ⟨[], [], []⟩ [(0, .int .i8)] (.int .i8) body ⟨[], []⟩ with
+      | .ok _ st => satB ((List.range st.store.length).map fun _ => Ty.int .i8) st.store
+      | _ => false) = true ∧
+    (match inferFn ⟨[], [], []⟩ [(0, .int .u8)] (.int .u8) (.mk [] (some (.neg (.var 0)))) ⟨[], []⟩ with
+      | .err .negateUnsigned => true
+      | _ => false) = true := by decide +kernel
 
 end RotoV.C07
